@@ -1033,6 +1033,7 @@ def _intercept_model(scan, xname, k, add_intercept):
     N, t = SX.atom("N"), SX.atom("t")
     state = {"tokens": [("T", SX.Lin(0), N)]}
     env = {}
+    xnames = {xname}  # the tilde-position list and its aliases (a helper's parameter, a renamed copy)
 
     def lin(v):
         return v if isinstance(v, SX.Lin) else None
@@ -1046,11 +1047,11 @@ def _intercept_model(scan, xname, k, add_intercept):
             return SX.Lin(e.value)
         if isinstance(e, ast.Name) and e.id in env and isinstance(env[e.id], SX.Lin):
             return env[e.id]
-        if isinstance(e, ast.Subscript) and isinstance(e.value, ast.Name) and e.value.id == xname and isinstance(e.slice, ast.Constant) and e.slice.value in (0, -1):
+        if isinstance(e, ast.Subscript) and isinstance(e.value, ast.Name) and e.value.id in xnames and isinstance(e.slice, ast.Constant) and e.slice.value in (0, -1):
             if k != 1:
                 raise AnalysisError(f"`{unparse(e)}` is evaluated with {k} tilde position(s)")
             return t
-        if isinstance(e, ast.Call) and dotted(e.func) == "len" and len(e.args) == 1 and isinstance(e.args[0], ast.Name) and e.args[0].id == xname:
+        if isinstance(e, ast.Call) and dotted(e.func) == "len" and len(e.args) == 1 and isinstance(e.args[0], ast.Name) and e.args[0].id in xnames:
             return SX.Lin(k)
         if isinstance(e, ast.BinOp) and isinstance(e.op, (ast.Add, ast.Sub)):
             a, b = num(e.left), num(e.right)
@@ -1061,7 +1062,7 @@ def _intercept_model(scan, xname, k, add_intercept):
     def truth(e):
         if isinstance(e, ast.Name) and e.id == flag_name:
             return add_intercept
-        if isinstance(e, ast.Name) and e.id == xname:
+        if isinstance(e, ast.Name) and e.id in xnames:
             return k > 0
         if isinstance(e, ast.UnaryOp) and isinstance(e.op, ast.Not):
             return not truth(e.operand)
@@ -1173,7 +1174,10 @@ def _intercept_model(scan, xname, k, add_intercept):
             if isinstance(st, ast.Assign) and len(st.targets) == 1:
                 tg = st.targets[0]
                 if isinstance(tg, ast.Name):
-                    if tg.id == xname:
+                    if tg.id in xnames:
+                        continue
+                    if isinstance(st.value, ast.Name) and st.value.id in xnames:
+                        xnames.add(tg.id)
                         continue
                     v = num(st.value)
                     if v is not None:
